@@ -287,6 +287,11 @@ class Thm:
 
         """
         try:
+            # Term.subst extends inst.tyinst while matching schematic variables.
+            # Make a first pass so that all hypotheses and the proposition are
+            # instantiated with the same (complete) type instantiation.
+            for t in th.hyps + (th.prop,):
+                t.subst(inst)
             hyps_new = tuple(hyp.subst(inst) for hyp in th.hyps)
             prop_new = th.prop.subst(inst)
         except term.TermException:
